@@ -89,7 +89,13 @@ func cmdCheck(args []string) {
 	replayDir := filepath.Join("/verif/out/replay", prop)
 	os.RemoveAll(replayDir)
 	os.MkdirAll(replayDir, 0o755)
-	evFile := filepath.Join("/verif/evidence", prop+".json")
+	evDir := "/verif/evidence"
+	if d := os.Getenv("VERIF_EVIDENCE_DIR"); d != "" {
+		// scoring of seeded changes / self-tests: keep the registered evidence (unchanged tree) untouched
+		evDir = d
+		os.MkdirAll(d, 0o755)
+	}
+	evFile := filepath.Join(evDir, prop+".json")
 	os.MkdirAll("/verif/evidence", 0o755)
 
 	fail := func(msg string) {
